@@ -246,6 +246,44 @@ def run(rep, tier):
                             if kind(other) == "MethodCall" and other["m"] == "len" and vec_field(other["recv"]) == live:
                                 ok = True
             if not ok:
+                # `self.lengths.last_mut().filter(|(_, remained)| len == *remained)` and then `if let Some((_, remained)) =
+                # .. { *remained -= 1 }`: the test sits in the filter's closure, on the same component of the same entry
+                def tuple_slot(pat, lid):
+                    for q in walk(pat):
+                        if q.get("k") == "PTuple":
+                            for j, sub in enumerate(q.get("pats", [])):
+                                if any(b_[0] == lid for b_ in hirq.pat_bindings(sub)):
+                                    return j
+                    return None
+                lid = hirq.local_id(dcr["l"])
+                src = hirq.binding_source(pop, lid) if lid is not None else None
+                pat = None
+                for n2 in walk(pop["body"]):
+                    if n2.get("k") in ("LetExpr", "Let") and n2.get("pat") is not None and any(
+                            b_[0] == lid for b_ in hirq.pat_bindings(n2["pat"])):
+                        pat = n2["pat"]
+                d = 0
+                src = peel(src) if src is not None else None
+                while src is not None and d < 4 and kind(src) == "Path" and src.get("res") == "local" and src["id"] in lets:
+                    src = peel(lets[src["id"]][0])
+                    d += 1
+                if src is not None and pat is not None and kind(src) == "MethodCall" and src["m"] == "filter" and src["args"] \
+                        and kind(peel(src["args"][0])) == "Closure" and vec_field(peel(src["recv"]).get("recv", {})) == snap:
+                    clo = peel(src["args"][0])
+                    j = tuple_slot(pat, lid)
+                    for cnd in walk(clo["body"]):
+                        if kind(cnd) == "Binary" and cnd["op"] == "==":
+                            for (x, y) in ((cnd["l"], cnd["r"]), (cnd["r"], cnd["l"])):
+                                xl = hirq.local_id(x)
+                                if xl is not None and clo.get("params") and tuple_slot(clo["params"][0], xl) == j and j is not None:
+                                    other = peel(y)
+                                    d = 0
+                                    while d < 4 and kind(other) == "Path" and other.get("res") == "local" and other["id"] in lets:
+                                        other = peel(lets[other["id"]][0])
+                                        d += 1
+                                    if kind(other) == "MethodCall" and other["m"] == "len" and vec_field(other["recv"]) == live:
+                                        ok = True
+            if not ok:
                 r5.violation("pop:guard", where(dcr), "the count pop decrements (`%s`) is not the one it compared with the "
                              "length before the pop (`==`): elements that are not originals of the snapshot are recorded, "
                              "or originals are not" % hirq.expr_text(dcr["l"]))
